@@ -306,12 +306,22 @@ def run(ctx):
             f.write("---- MODULE MCQueue ----\nEXTENDS ResultQueueDesign\nmcNones == %s\nmcCrashers == %s\n====\n" % (nones, crash))
         with open(os.path.join(d, "MCQueue.cfg"), "w") as f:
             f.write("CONSTANTS K = %d R = %d\nNones <- mcNones\nCrashers <- mcCrashers\nSPECIFICATION FairSpec\nINVARIANT NoDup\n"
-                    "INVARIANT OnlyProduced\nINVARIANT Conservation\nINVARIANT SemBound\nINVARIANT ChildFifo\nPROPERTY Terminates\n" % (K, R))
+                    "INVARIANT OnlyProduced\nINVARIANT Conservation\nINVARIANT SemBound\nINVARIANT ChildFifo\nPROPERTY Terminates\n"
+                    "PROPERTY RefinesInd\n" % (K, R))
         res = ctx.tlc(d, "MCQueue", "MCQueue.cfg", workers=16, coverage=True, timeout=2400)
         cov = res.coverage()
         never = [a for a in ("PollAlive", "Get", "EndDrain") if cov.get(a, (0, 0))[1] == 0]
         if never:
             raise MachineryError("ResultQueueDesign actions never taken: %s" % never)
+    # unbounded part: conservation of items / semaphore accounting / "a child that is gone has flushed" of the set-based
+    # ResultQueueInd (which ResultQueueDesign refines, PROPERTY RefinesInd) is inductive for ALL K, R up to the bound, every
+    # set of None results and every set of crashing children (symbolic constants, Apalache); negative control: a child
+    # that exits without joining its feeder thread
+    from vlib import apalache
+    bounds = {"MaxK == 4": "MaxK == 3", "MaxR == 4": "MaxR == 2"} if quick else {}
+    apalache.inductive(ctx, d, "ResultQueueInd", cinit="ConstInit", goals=("Conservation", "OnlyProduced"), subst=bounds,
+                       negative={"/\\ c \\in alive /\\ Finished(c) /\\ BufferOf(c) = {}": "/\\ c \\in alive /\\ Finished(c)",
+                                 **({} if quick else {"MaxK == 4": "MaxK == 3", "MaxR == 4": "MaxR == 2"})})
     cases = c04.gen_cases(ctx, 5, 3, 6 if quick else 14, ctx.seed + 5, ks="{0,1,2}")
     cases = [c for c in cases if any(r[0] >= 1 and r[4] for r in c["rows"])]
     real = cases[:10] if quick else cases[:120]
